@@ -60,11 +60,21 @@ def inv_facts(p, snap):
     return f
 
 
-def paths(backward, flags):
-    key = (backward, flags)
+def paths(backward, flags, part=None):
+    """part = (first, reject): enumerate only loop heads with these values of the two flags (the four parts together are
+    the full havoc; they run as separate units so that the enumeration is spread over processes)."""
+    key = (backward, flags, tuple(sorted(part.items())) if isinstance(part, dict) else part)
     if key not in _cache:
         t0 = time.time()
-        ps = S.body_paths("RADAU", backward=backward, with_max_step=True, inv=inv_radau, flags_symbolic=flags, max_paths=60000)
+        ho = dict(S.HAVOC_OVERRIDES.get("RADAU", {}))
+        try:
+            if isinstance(part, dict):
+                S.HAVOC_OVERRIDES["RADAU"] = dict(ho, **{k: (lambda v: (lambda it, dom: v))(v) for k, v in part.items()})
+            elif part is not None:
+                S.HAVOC_OVERRIDES["RADAU"] = dict(ho, first=(lambda v: (lambda it, dom: v))(part[0]), reject=(lambda v: (lambda it, dom: v))(part[1]))
+            ps = S.body_paths("RADAU", backward=backward, with_max_step=True, inv=inv_radau, flags_symbolic=flags, max_paths=60000)
+        finally:
+            S.HAVOC_OVERRIDES["RADAU"] = ho
         _cache[key] = (ps, time.time() - t0)
     return _cache[key]
 
@@ -117,12 +127,19 @@ def radau_prefix(backward=False):
     return unit
 
 
-def radau_iteration(backward=False):
+LITE = {"reject": False, "call_jac": True, "call_decomp": True}
+
+
+def radau_iteration(backward=False, part=None, accepted_inv=True):
+    """part: None (full havoc), (first, reject) (one of four parts), or a dict of loop-carried flags held fixed (LITE: the
+    quick-tier variant -- `first` and `last` stay arbitrary, the invariant clauses are checked on rejection paths only)."""
+    sfx = ("_back" if backward else "") + ("" if part is None else "_lite" if isinstance(part, dict) else f"_first{int(part[0])}_reject{int(part[1])}")
+
     def unit(tier="quick", seed=0):
         t0 = time.time()
-        ob = Ob("radau_iteration" + ("_back" if backward else ""))
+        ob = Ob("radau_iteration" + sfx)
         undecided = []
-        ps, gen_s = paths(backward, False)
+        ps, gen_s = paths(backward, False, part)
         ob.paths = len(ps)
         for p in ps:
             w = p.w
@@ -162,7 +179,9 @@ def radau_iteration(backward=False):
                 ob.check(p, zabs(lastx.t - w.xend.t) <= w.slack, "RADAU: Success reported before reaching xend (or beyond it)")
             if st is None and p.exit == "continue":
                 for desc, fact in inv_facts(p, p.after).items():
-                    if p.rec.callbacks and desc not in ("x not before x0", "x not beyond xend"):
+                    if p.rec.callbacks and not accepted_inv and desc not in ("x not before x0", "x not beyond xend"):
+                        continue
+                    if desc not in ("x not before x0", "x not beyond xend", "last only when the step ends on xend"):
                         # accepted step: the new step size comes out of a long chain of controller arithmetic; the solver is given 4 s
                         # per clause, and a clause it cannot decide is reported as UNDECIDED (stated in the evidence), not as proved
                         p.timeout_ms = 4000
@@ -180,14 +199,17 @@ def radau_iteration(backward=False):
                 ob.samples.append({"path": p.label(), "rhs_calls": len(p.rec.ode_calls), "callbacks": len(p.rec.callbacks), "outcome": st or p.outcome[1],
                                    "events": [e for e in p.events][:4]})
         return ob.result(t0, {"functions": ["RADAU::solve (one main-loop iteration)"],
-                              "bounds": f"n=1; newton_maxiter=1; {len(ps)} body paths; LU success/failure nondeterministic; matrices, stage increments, norms and convergence bookkeeping are free data; "
-                                        f"UNDECIDED within 4 s (not claimed): {len(undecided)} invariant-preservation clauses on accepted-step paths",
+                              "bounds": f"n=1; newton_maxiter=1; {len(ps)} body paths" + ("" if part is None else f" (loop heads with {part} held fixed; invariant clauses on rejection paths only)" if isinstance(part, dict) else f" (loop heads with first={part[0]}, reject={part[1]}: one of four parts)") + f"; LU success/failure nondeterministic; matrices, stage increments, norms and convergence bookkeeping are free data; "
+                                        f"UNDECIDED within 4 s (not claimed): {len(undecided)} invariant-preservation clauses",
                               "undecided": undecided[:20],
                               "path_generation_s": round(gen_s, 1)},
                          replay_fn=lambda f: replay.radau_replay(backward, f))
 
-    unit.__name__ = "radau_iteration" + ("_back" if backward else "")
+    unit.__name__ = "radau_iteration" + sfx
     return unit
+
+
+PARTS = [(False, False), (False, True), (True, False), (True, True)]
 
 
 def radau_protocol(backward=False):
@@ -254,4 +276,132 @@ def radau_protocol(backward=False):
                          replay_fn=lambda f: replay.radau_replay(backward, f))
 
     unit.__name__ = "radau_protocol" + ("_back" if backward else "")
+    return unit
+
+
+def radau_initial_modified(tier="quick", seed=0):
+    """Exact-domain dataflow fact on the prefix: when the INITIAL callback writes a new state (ModifiedSolution),
+    everything the first step starts from -- the derivative f0 and the error scale scal -- is computed from the
+    written state, not from the state it replaced (so that 'continue from the state the callback wrote' holds)."""
+    import sympy as sp
+    from . import sx
+    from .units_rk import _result
+    from . import tableau as TB
+    t0 = time.time()
+    q = TB.Q()
+    failed = []
+    n = 2
+
+    def policy(it, k, x, y):
+        for i in range(len(y)):
+            y.set(i, sp.Symbol(f"ymod_{i}", real=True))
+        return REnum("ModifiedSolution")
+
+    paths = sx.exact_first_iteration("RADAU", n=n, iterations=0, flag_policy=policy, havoc=False, tol="vector", overrides={"newton_maxiter": 1})
+    heads = [p for p in paths if p.outcome == ("end", "end_of_iteration")]
+    if not heads:
+        raise Unsupported("RADAU: no path reaches the main loop with a ModifiedSolution initial callback")
+    old = {sp.Symbol(f"y0_{i}", real=True) for i in range(n)}
+    for p in heads:
+        env = p.env
+        y = env.get("y").items()
+        scal = env.get("scal").items()
+        q.n += 1
+        q.quantified += 1
+        for i in range(n):
+            if not (isinstance(y[i], sp.Symbol) and str(y[i]) == f"ymod_{i}"):
+                failed.append("RADAU: after ModifiedSolution at the initial callback the solver does not continue from the written state")
+            fs = scal[i].free_symbols if hasattr(scal[i], "free_symbols") else set()
+            if sp.Symbol(f"ymod_{i}", real=True) not in fs or (fs & old):
+                failed.append(f"RADAU: after ModifiedSolution at the initial callback the error scale of component {i} is computed from the replaced state (depends on {sorted(map(str, fs))})")
+        calls = p.rec.ode_calls
+        cb = p.rec.callbacks[0]
+        after = calls[cb["n_ode"]:]
+        q.n += 1
+        if not after or any(a is not b for a, b in zip(after[0][1], y)):
+            failed.append("RADAU: after ModifiedSolution at the initial callback the derivative is not re-evaluated at the written state")
+        else:
+            f0 = env.get("f0").items()
+            if any(a is not b for a, b in zip(f0, after[0][2])):
+                failed.append("RADAU: the first step does not start from the derivative re-evaluated at the written state")
+    failed = list(dict.fromkeys(failed))
+    return _result("radau_initial_modified", q, t0, failed,
+                   {"functions": ["RADAU::solve prefix with an initial callback returning ModifiedSolution"], "bounds": f"n={n}; exact arithmetic; {len(heads)} prefix paths; dataflow (free symbols) of scal, f0, y at the first loop head"},
+                   **_modinit(failed))
+
+
+def _modinit(failed):
+    if not failed:
+        return dict(replayed=None, replay_src="", replay_log="")
+    r = replay.modinit_replay("RADAU")
+    return dict(replayed=r[0], replay_src=r[1], replay_log="; ".join(failed) + "\n" + r[2])
+
+
+# ------------------------------------------------------------------------------ deeper Newton unrolling on a narrowed loop head
+def paths_lite(maxiter, backward=False, flags=False):
+    """Body paths with the simplified Newton loop unrolled `maxiter` times, from loop heads narrowed to the steady state
+    (first = reject = last = false, Jacobian and decomposition due, no pending XOut): far fewer paths than the full
+    havoc, which pays for the deeper unrolling."""
+    key = ("lite", maxiter, backward, flags)
+    if key not in _cache:
+        t0 = time.time()
+        so, ho = dict(S.SOLVER_OVERRIDES.get("RADAU", {})), dict(S.HAVOC_OVERRIDES.get("RADAU", {}))
+        try:
+            S.SOLVER_OVERRIDES["RADAU"] = dict(so, newton_maxiter=maxiter)
+            fixed = {"first": False, "reject": False, "last": False, "call_jac": True, "call_decomp": True}
+            S.HAVOC_OVERRIDES["RADAU"] = dict(ho, **{k: (lambda v: (lambda it, dom: v))(v) for k, v in fixed.items()})
+            ps = S.body_paths("RADAU", backward=backward, with_max_step=True, inv=inv_radau, flags_symbolic=flags, max_paths=60000)
+        finally:
+            S.SOLVER_OVERRIDES["RADAU"], S.HAVOC_OVERRIDES["RADAU"] = so, ho
+        _cache[key] = (ps, time.time() - t0)
+    return _cache[key]
+
+
+def radau_newton(maxiter=3, backward=False):
+    """Counters and step/interpolant consistency with the Newton loop unrolled `maxiter` times (reaches the
+    convergence-rate branches: predicted non-convergence, divergence, iteration limit)."""
+
+    def unit(tier="quick", seed=0):
+        t0 = time.time()
+        nm = f"radau_newton{maxiter}" + ("_back" if backward else "")
+        ob = Ob(nm)
+        ps, gen_s = paths_lite(maxiter, backward)
+        ob.paths = len(ps)
+        for p in ps:
+            w = p.w
+            if p.outcome[0] == "panic":
+                ob.failed.append((f"RADAU: panic inside the main loop: {p.outcome[1]}", p.label(), {}, path_script(p)))
+                continue
+            xh, hh = p.head["x"], p.head["h"]
+            for j, (t, args, outs) in enumerate(p.rec.ode_calls):
+                ob.check(p, w.in_span(t.t), f"RADAU: right-hand side evaluated outside [x0,xend] (+-4ulp) (call {j + 1} of the iteration)")
+            for cb in p.rec.callbacks:
+                ob.check(p, cb["xold"].t.eq(xh.t), "RADAU: callback xold is not the previous x (bit-for-bit)")
+                ob.check(p, w.d(cb["x"].t - xh.t) > 0, "RADAU: accepted step does not move toward xend")
+                ip = cb["interp"]
+                ok_ip = isinstance(ip, REnum) and ip.name == "Some"
+                ob.check(p, ok_ip, "RADAU: accepted step handed to the callback without an interpolant (dense output on)")
+                if ok_ip:
+                    f = ip.payload[0].f
+                    ob.check(p, f["xold"].t.eq(xh.t), "RADAU: interpolant's left end is not the step's start (bit-for-bit)")
+                    ob.check(p, f["h"].t.eq(hh.t), "RADAU: the interpolant's step is not the step the stages were computed with (h changed between the stage evaluations and the acceptance)")
+                    ob.check(p, zabs(f["xold"].t + f["h"].t - cb["x"].t) <= w.slack, "RADAU: interpolant does not span the accepted step")
+            ev0, st0 = p.head["evals"], p.head["steps"]
+            ev1, st1 = _final_struct(p, "evals"), _final_struct(p, "steps")
+            d_ode, d_jac = _delta(ev0.f["ode"], ev1.f["ode"]), _delta(ev0.f["jac"], ev1.f["jac"])
+            d_acc = _delta(st0.f["accepted"], st1.f["accepted"])
+            ob.check(p, d_ode == len(p.rec.ode_calls), f"RADAU: evals.ode advanced by {d_ode} in an iteration that made {len(p.rec.ode_calls)} right-hand-side calls")
+            ob.check(p, d_jac == len(p.rec.jac_calls), f"RADAU: evals.jac advanced by {d_jac} in an iteration that made {len(p.rec.jac_calls)} Jacobian calls")
+            ob.check(p, d_acc == len(p.rec.callbacks), f"RADAU: steps.accepted advanced by {d_acc} in an iteration with {len(p.rec.callbacks)} callbacks")
+            st = S.status_of(p.outcome)
+            if st is None and p.exit == "continue" and not p.rec.callbacks:
+                ob.check(p, zabs(p.after["h"].t) <= qv(Fraction(95, 100)) * zabs(hh.t) * (1 + qv(8 * EPS)), "RADAU: a rejected trial does not shrink the step by at least 5%")
+            if len(ob.samples) < 3:
+                ob.samples.append({"path": p.label(), "rhs_calls": len(p.rec.ode_calls), "callbacks": len(p.rec.callbacks), "outcome": st or p.outcome[1]})
+        return ob.result(t0, {"functions": ["RADAU::solve (one main-loop iteration, Newton loop unrolled)"],
+                              "bounds": f"n=1; newton_maxiter={maxiter}; {len(ps)} body paths from steady-state loop heads (first = reject = last = false, Jacobian and decomposition due)",
+                              "path_generation_s": round(gen_s, 1)},
+                         replay_fn=lambda f: replay.radau_stiff_replay(f))
+
+    unit.__name__ = f"radau_newton{maxiter}" + ("_back" if backward else "")
     return unit
